@@ -2,6 +2,17 @@ package rules
 
 // C18 R2 — MASK-SAT and sibling dispatch over the typed AST. Constants are read
 // through go/types (constant values), identifiers through TypesInfo.
+//
+// Instance floors are keyed on semantic entities, not on copies of code: the
+// server types of the package (structs with Start and Stop) must each reach an
+// opcode dispatch and a judged classification (R2-sibling-dispatch,
+// R2-classifier), DefendName/HandleRedirect must each reach a judged
+// classification (R2-classifier), and R2-route has one obligation per (server
+// type, routed opcode). Merging identical switches into one shared method, or
+// two filters into one predicate helper, changes none of these counts; deleting
+// a case, or a server that stops dispatching, fails them. `x &^ K` is read as
+// the mask ^K, so an opcode "derived by clearing the known flags" is judged on
+// the bits it really keeps.
 
 import (
 	"fmt"
@@ -164,6 +175,26 @@ func c18Masked(pk *packages.Package, defs map[types.Object]ast.Expr, e ast.Expr,
 		return nil, 0, false
 	}
 	be, isB := e.(*ast.BinaryExpr)
+	if isB && be.Op == token.AND_NOT {
+		// x &^ K keeps the bits of x outside K: the mask is ^K over the width of x
+		if kv, kc := c18ConstVal(pk.TypesInfo, be.Y); kc {
+			if _, xc := c18ConstVal(pk.TypesInfo, be.X); !xc {
+				width := uint64(0xFFFF)
+				if b, ok := pk.TypesInfo.TypeOf(be.X).Underlying().(*types.Basic); ok {
+					switch b.Kind() {
+					case types.Uint8, types.Int8:
+						width = 0xFF
+					case types.Uint32, types.Int32:
+						width = 0xFFFFFFFF
+					case types.Uint64, types.Int64, types.Uint, types.Int, types.Uintptr:
+						width = ^uint64(0)
+					}
+				}
+				return be.X, ^kv & width, true
+			}
+		}
+		return nil, 0, false
+	}
 	if !isB || be.Op != token.AND {
 		return nil, 0, false
 	}
@@ -436,7 +467,9 @@ func (k *c18) r2() {
 			k.r.OK("R2-mask", construct, pos, fmt.Sprintf("mask 0x%04X: every constant ⊆ mask, cases distinct, 0x%04X ⊆ mask ⊆ 0x%04X", s.mask, need, uint64(c18RouteBits)))
 		})
 	}
-	k.r.Floor("R2-mask", 5)
+	// every classification site is judged above; which code must classify at all is decided
+	// per semantic entity below (R2-classifier), not by counting sites
+	k.r.Floor("R2-mask", 1)
 	{
 		var ms []string
 		for m, fns := range masks {
@@ -514,9 +547,64 @@ func (k *c18) r2() {
 		}
 	}
 	k.r.Extra["R2_dispatch_switches"] = len(disps)
-	if len(disps) < 3 {
-		k.r.Fail("R2-sibling-dispatch", "nbtns: dispatch switches over Op*", "", fmt.Sprintf("%d dispatch switches found, 3 confirmed by reading (server.go, udp_server.go, tcp_server.go)", len(disps)))
+	// The entities that must dispatch are the server types (struct types of the package with
+	// Start and Stop methods), not the switch statements: several servers may share one
+	// dispatch method. Each server type must reach a dispatch from its methods, and every code
+	// path that filters on the opcode (DefendName, HandleRedirect) must reach a classification.
+	servers := k.r2ServerTypes(pk)
+	{
+		var sn []string
+		for _, t := range servers {
+			sn = append(sn, t.Obj().Name())
+		}
+		k.r.Extra["R2_server_types"] = sn
+		if len(servers) < 3 {
+			k.r.Fail("R2-sibling-dispatch", "nbtns: server types with Start/Stop", "", fmt.Sprintf("%d server types found (%s), 3 confirmed by reading (Server, UDPServer, TCPServer)", len(servers), strings.Join(sn, ", ")))
+		}
 	}
+	siteFns := map[string]bool{}
+	for _, s := range sites {
+		siteFns[s.fn] = true
+	}
+	dispOf := map[*types.Named][]*disp{}
+	for _, t := range servers {
+		reach := k.r2Reach(k.methodsOf(t))
+		for _, d := range disps {
+			if reach[d.fn] {
+				dispOf[t] = append(dispOf[t], d)
+			}
+		}
+		construct := "nbtns: server type " + t.Obj().Name() + " reaches an opcode dispatch over Op*"
+		if len(dispOf[t]) == 0 {
+			k.r.Fail("R2-sibling-dispatch", construct, k.p.Rel(t.Obj().Pos()), "no method of "+t.Obj().Name()+" reaches (through static calls, go statements and function literals) a recognised switch / if-chain on Header.Flags&M against the Op* constants: its requests are not routed by opcode, or the dispatch is written in a form the rule cannot read")
+		} else {
+			var dn []string
+			for _, d := range dispOf[t] {
+				dn = append(dn, d.fn)
+			}
+			k.r.OK("R2-sibling-dispatch", construct, k.p.Rel(t.Obj().Pos()), "dispatch in "+strings.Join(dn, ", "))
+		}
+		cconstruct := "nbtns: server type " + t.Obj().Name() + " classifies the opcode with a judged mask"
+		if k.r2ReachesAny(reach, siteFns) {
+			k.r.OK("R2-classifier", cconstruct, k.p.Rel(t.Obj().Pos()), "reaches a Header.Flags&M classification site judged by R2-mask")
+		} else {
+			k.r.Fail("R2-classifier", cconstruct, k.p.Rel(t.Obj().Pos()), "reaches no recognised Header.Flags&M classification")
+		}
+	}
+	for _, a := range [][2]string{{"NameChallenger", "DefendName"}, {"RedirectManager", "HandleRedirect"}} {
+		construct := fmt.Sprintf("nbtns: (%s).%s filters on the opcode with a judged mask", a[0], a[1])
+		fn := k.p.Func(c18Nbtns, a[0], a[1])
+		if fn == nil {
+			k.r.Undecided("R2-classifier", construct, "", "anchor method not found")
+			continue
+		}
+		if k.r2ReachesAny(k.r2Reach([]*ssa.Function{fn}), siteFns) {
+			k.r.OK("R2-classifier", construct, k.p.Rel(fn.Pos()), "reaches a Header.Flags&M classification site judged by R2-mask")
+		} else {
+			k.r.Fail("R2-classifier", construct, k.p.Rel(fn.Pos()), "the query-only filter of this function no longer reaches a recognised Header.Flags&M comparison with an Op* constant")
+		}
+	}
+	k.r.Floor("R2-classifier", 5)
 	ops := map[*types.Const]bool{}
 	for _, d := range disps {
 		for o := range d.handlers {
@@ -558,7 +646,8 @@ func (k *c18) r2() {
 			k.r.Fail("R2-sibling-dispatch", construct, "", "the dispatchers route "+o.Name()+" differently: "+strings.Join(rows, "; "))
 		}
 	}
-	k.r.Floor("R2-sibling-dispatch", 4)
+	// 4 routed opcodes + 3 server types
+	k.r.Floor("R2-sibling-dispatch", 7)
 
 	// route: the handler of Op X performs the name-table operation of X and no other
 	var tableT *types.Named
@@ -569,61 +658,69 @@ func (k *c18) r2() {
 	for _, v := range c18OpRoute {
 		tableOps[v] = true
 	}
-	for _, d := range disps {
-		for _, o := range opList {
-			hs, has := d.handlers[o]
-			if !has {
-				continue
-			}
-			want, known := c18OpRoute[o.Name()]
-			construct := fmt.Sprintf("%s: case %s → %s", d.fn, o.Name(), names(hs))
-			pos := k.p.Rel(d.pos)
-			if !known {
-				k.r.Note("R2-route: no expected name-table operation recorded for %s (dispatched in %s)", o.Name(), d.fn)
+	for _, o := range opList {
+		if _, known := c18OpRoute[o.Name()]; !known {
+			k.r.Note("R2-route: no expected name-table operation recorded for %s", o.Name())
+		}
+	}
+	var routeOps []string
+	for n := range c18OpRoute {
+		routeOps = append(routeOps, n)
+	}
+	sort.Strings(routeOps)
+	// one obligation per (server type, routed opcode): whichever dispatch the server reaches
+	// must send the opcode to a handler that performs its name-table operation
+	for _, t := range servers {
+		for _, on := range routeOps {
+			want := c18OpRoute[on]
+			o, _ := pk.Types.Scope().Lookup(on).(*types.Const)
+			construct := fmt.Sprintf("%s: opcode %s → NetBIOSNameServer.%s", t.Obj().Name(), on, want)
+			pos := k.p.Rel(t.Obj().Pos())
+			if o == nil || !opFamily[o] {
+				k.r.Undecided("R2-route", construct, pos, "constant "+on+" not found")
 				continue
 			}
 			if tableT == nil {
 				k.r.Undecided("R2-route", construct, pos, "type NetBIOSNameServer not found")
 				continue
 			}
-			got := map[string]bool{}
-			for _, h := range hs {
-				fn := k.p.SSA.FuncValue(h)
-				if fn == nil {
+			if len(dispOf[t]) == 0 {
+				k.r.Fail("R2-route", construct, pos, "the server type reaches no opcode dispatch")
+				continue
+			}
+			var bad, good []string
+			for _, d := range dispOf[t] {
+				hs, has := d.handlers[o]
+				if !has {
+					bad = append(bad, fmt.Sprintf("%s has no case for %s: the request falls to the default (not implemented) answer", d.fn, on))
 					continue
 				}
-				for _, b := range fn.Blocks {
-					for _, in := range b.Instrs {
-						ci, ok := in.(ssa.CallInstruction)
-						if !ok {
-							continue
-						}
-						co := effects.CalleeObj(ci.Common())
-						if co == nil {
-							continue
-						}
-						sig, _ := co.Type().(*types.Signature)
-						if sig == nil || sig.Recv() == nil {
-							continue
-						}
-						if nt, ok := deref2(sig.Recv().Type()).(*types.Named); ok && nt.Obj() == tableT.Obj() && tableOps[co.Name()] {
-							got[co.Name()] = true
-						}
+				pos = k.p.Rel(d.pos)
+				got := map[string]bool{}
+				for _, h := range hs {
+					if fn := k.p.SSA.FuncValue(h); fn != nil {
+						k.r2TableOps(fn, tableT, tableOps, got, map[*ssa.Function]bool{}, 0)
 					}
 				}
+				var gl []string
+				for g := range got {
+					gl = append(gl, g)
+				}
+				sort.Strings(gl)
+				if len(gl) == 1 && gl[0] == want {
+					good = append(good, fmt.Sprintf("%s: case %s → %s", d.fn, on, names(hs)))
+				} else {
+					bad = append(bad, fmt.Sprintf("%s: case %s → %s reaches {%s}", d.fn, on, names(hs), strings.Join(gl, ",")))
+				}
 			}
-			var gl []string
-			for g := range got {
-				gl = append(gl, g)
-			}
-			sort.Strings(gl)
-			if len(gl) == 1 && gl[0] == want {
-				k.r.OK("R2-route", construct, pos, "handler calls NetBIOSNameServer."+want+" and none of the other table operations")
+			if len(bad) == 0 {
+				k.r.OK("R2-route", construct, pos, "handler calls NetBIOSNameServer."+want+" and none of the other table operations ("+strings.Join(good, "; ")+")")
 			} else {
-				k.r.Fail("R2-route", construct, pos, fmt.Sprintf("opcode %s must reach NetBIOSNameServer.%s (RFC 1002 operation of that opcode); the dispatched handler reaches {%s}", o.Name(), want, strings.Join(gl, ",")))
+				k.r.Fail("R2-route", construct, pos, fmt.Sprintf("opcode %s must reach NetBIOSNameServer.%s (RFC 1002 operation of that opcode): %s", on, want, strings.Join(bad, "; ")))
 			}
 		}
 	}
+	// 3 server types × 4 routed opcodes
 	k.r.Floor("R2-route", 12)
 
 	// thorough tier: MASK-SAT over the whole module
@@ -658,5 +755,120 @@ func (k *c18) r2() {
 			}
 		}
 		k.r.Extra["R2_module_masked_sites"] = n
+	}
+}
+
+// r2ServerTypes: the struct types of the package that have Start and Stop methods.
+func (k *c18) r2ServerTypes(pk *packages.Package) []*types.Named {
+	var out []*types.Named
+	sc := pk.Types.Scope()
+	for _, n := range sc.Names() {
+		tn, ok := sc.Lookup(n).(*types.TypeName)
+		if !ok || tn.IsAlias() {
+			continue
+		}
+		nt, ok := tn.Type().(*types.Named)
+		if !ok {
+			continue
+		}
+		if _, isStruct := nt.Underlying().(*types.Struct); !isStruct {
+			continue
+		}
+		ms := types.NewMethodSet(types.NewPointer(nt))
+		if ms.Lookup(pk.Types, "Start") != nil && ms.Lookup(pk.Types, "Stop") != nil {
+			out = append(out, nt)
+		}
+	}
+	return out
+}
+
+// r2DeclName renders the declared function a (possibly anonymous) SSA function belongs to,
+// in the form the AST side uses for mask sites.
+func (k *c18) r2DeclName(fn *ssa.Function) string {
+	for fn.Parent() != nil {
+		fn = fn.Parent()
+	}
+	if o, ok := fn.Object().(*types.Func); ok {
+		return k.relName(o.FullName())
+	}
+	return fn.Name()
+}
+
+// r2Reach: names of the declared functions of the anchored package reached from roots
+// through calls, go/defer statements and function literals (bounded depth).
+func (k *c18) r2Reach(roots []*ssa.Function) map[string]bool {
+	seen := map[*ssa.Function]bool{}
+	out := map[string]bool{}
+	var visit func(fn *ssa.Function, d int)
+	visit = func(fn *ssa.Function, d int) {
+		if fn == nil || fn.Blocks == nil || seen[fn] || d > 8 {
+			return
+		}
+		seen[fn] = true
+		out[k.r2DeclName(fn)] = true
+		for _, a := range fn.AnonFuncs {
+			visit(a, d)
+		}
+		for _, b := range fn.Blocks {
+			for _, in := range b.Instrs {
+				ci, ok := in.(ssa.CallInstruction)
+				if !ok {
+					continue
+				}
+				for _, g := range k.pg.Callees(ci.Common()) {
+					if relPkg(k.p, g) == c18Nbtns {
+						visit(g, d+1)
+					}
+				}
+			}
+		}
+	}
+	for _, r := range roots {
+		visit(r, 0)
+	}
+	return out
+}
+
+func (k *c18) r2ReachesAny(reach map[string]bool, fns map[string]bool) bool {
+	for f := range fns {
+		if reach[f] {
+			return true
+		}
+	}
+	return false
+}
+
+// r2TableOps collects the name-table operations a handler performs, in its own body, its
+// function literals and the same-package helpers it calls.
+func (k *c18) r2TableOps(fn *ssa.Function, tableT *types.Named, tableOps map[string]bool, got map[string]bool, seen map[*ssa.Function]bool, d int) {
+	if fn == nil || fn.Blocks == nil || seen[fn] || d > 3 {
+		return
+	}
+	seen[fn] = true
+	for _, a := range fn.AnonFuncs {
+		k.r2TableOps(a, tableT, tableOps, got, seen, d)
+	}
+	for _, b := range fn.Blocks {
+		for _, in := range b.Instrs {
+			ci, ok := in.(ssa.CallInstruction)
+			if !ok {
+				continue
+			}
+			co := effects.CalleeObj(ci.Common())
+			if co == nil {
+				continue
+			}
+			if sig, _ := co.Type().(*types.Signature); sig != nil && sig.Recv() != nil {
+				if nt, ok := deref2(sig.Recv().Type()).(*types.Named); ok && nt.Obj() == tableT.Obj() {
+					if tableOps[co.Name()] {
+						got[co.Name()] = true
+					}
+					continue // the table's own methods are C17's subject
+				}
+			}
+			if g := ci.Common().StaticCallee(); g != nil && g.Blocks != nil && relPkg(k.p, g) == c18Nbtns {
+				k.r2TableOps(g, tableT, tableOps, got, seen, d+1)
+			}
+		}
 	}
 }
